@@ -42,6 +42,7 @@ from src.linter_config.directive_markers import (
     has_ignore_next_line_marker,
     has_ignore_start_marker,
     has_line_ignore_marker,
+    source_lines,
 )
 from src.linter_config.pattern_utils import extract_patterns_from_content, matches_pattern
 from src.linter_config.rule_matcher import (
@@ -182,7 +183,7 @@ def _read_file_first_lines(file_path: Path) -> list[str]:
         return []
     try:
         content = file_path.read_text(encoding="utf-8")
-        return content.splitlines()[:HEADER_SCAN_LINES]
+        return source_lines(content)[:HEADER_SCAN_LINES]
     except (UnicodeDecodeError, OSError) as e:
         logger.debug("Failed to read file %s: %s", file_path, e)
         return []
@@ -228,13 +229,13 @@ def _check_specific_rule_in_line(code: str, rule_id: str) -> bool:
 
 def _has_file_ignore_in_content(file_content: str, rule_id: str | None) -> bool:
     """Check if file content has ignore-file directive."""
-    lines = file_content.splitlines()[:HEADER_SCAN_LINES]
+    lines = source_lines(file_content)[:HEADER_SCAN_LINES]
     return any(_check_line_for_ignore(line, rule_id) for line in lines)
 
 
 def _is_ignored_in_content(file_content: str, violation: "Violation") -> bool:
     """Check content-based ignores (block, line, method level)."""
-    lines = file_content.splitlines()
+    lines = source_lines(file_content)
     if _check_block_ignore(lines, violation):
         return True
     if _check_prev_line_ignore(lines, violation):
